@@ -77,6 +77,19 @@ def run(tier):
                              sources=[c * x for x in p["src"]], points=[[c * x for x in q_] for q_ in p["points"]],
                              ray_points=[[c * x for x in q_] for q_ in p["points"][:2]]))       # length * c
             info.append((p, c, ckind))
+        if mode == "jit":
+            # corpus: recorded reproducer of known finding C05-big-sentinel (scaled times beyond Big = 1e5)
+            p0 = {"grid": np.ones((10, 10)), "gridsize": (1.0, 1.0), "origin": (0.0, 0.0), "src": [0.0, 0.0],
+                  "points": [[3.0, 4.0], [9.5, 9.5]], "meta": {"shape": (10, 10), "d": (1.0, 1.0), "medium": "homog", "cls": "node",
+                                                               "origin": (0.0, 0.0)}}
+            c0 = 16384.0
+            b0 = {"op": "api_solve", "grid": p0["grid"], "gridsize": p0["gridsize"], "origin": p0["origin"], "sources": p0["src"],
+                  "nsweep": 2, "grad": True, "points": p0["points"], "ray_points": p0["points"][:2],
+                  "ray_kw": {"honor_grid": False, "max_step": 500}, "timeout": 60.0}
+            reqs[:0] = [b0, dict(b0, grid=p0["grid"] / c0),
+                        dict(b0, gridsize=(c0, c0), sources=[0.0, 0.0], points=[[c0 * x for x in q_] for q_ in p0["points"]],
+                             ray_points=[[c0 * x for x in q_] for q_ in p0["points"][:2]])]
+            info.insert(0, (p0, c0, "pow2"))
         res = C.run_impl(reqs, mode, timeout=3000)
         for k, (p, c, ckind) in enumerate(info):
             a, s, l = res[3 * k], res[3 * k + 1], res[3 * k + 2]
@@ -107,7 +120,8 @@ def run(tier):
                     ok = np.allclose(want, gb["tt"], rtol=1e-9, atol=1e-9 * float(np.max(want)))
                 if not ok:
                     dev = float(np.max(np.abs(want - gb["tt"])) / np.max(np.abs(want)))
-                    ck.violation(f"traveltimes do not scale with the {name} unit", dict(pl, scaling=name, rel_dev=dev))
+                    ck.violation(f"traveltimes do not scale with the {name} unit",
+                                 dict(pl, scaling=name, rel_dev=dev, scaled_tmax=float(np.max(want))))
                     continue
                 if name == "slowness" and not np.isclose(gb["vzero"], c * ga["vzero"], rtol=1e-12):
                     ck.violation("vzero does not scale with the slowness unit", dict(pl, scaling=name))
